@@ -7,14 +7,20 @@ Domain
   * kind "cyc": every graph of exactly 3 classes whose bases range over all 3 classes (self loops, 2- and 3-cycles,
     forward references, classes that merely derive from a cycle).
   * kind "pkg" (Hypothesis): 2-7 classes spread over 1-3 modules of a temporary package, bases reached through
-    renamed from-imports (absolute/relative), `import pkg.m` + dotted path, module aliases, re-export chains (one hop,
-    two hops, through the package `__init__`) and wildcard imports; external bases (builtins, undefined names,
-    aliases into a package that is not loaded) sprinkled in; now and then back edges that make the graph cyclic.
-  * every class defines a pseudo-random subset of 4 names as function / attribute / nested class.
+    renamed from-imports (absolute/relative), `import pkg.m` + dotted path, module aliases, re-export chains of 1-4
+    hops, re-export through the package `__init__` and wildcard imports; subscripted bases (`class B(A[int])`, A
+    generic through `typing.Generic[T]` or an own `__class_getitem__`); classes defined inside classes, used as bases
+    (`class B(A.Inner)`, also through imports of the host) and deriving from siblings / outer classes; external bases
+    (builtins, undefined names, aliases into a package that is not loaded) sprinkled in; now and then back edges that
+    make the graph cyclic.
+  * every class defines a pseudo-random subset of 4 names as function / attribute / member class / property /
+    staticmethod / classmethod, possibly `__init__` (with or without a `self.<name> = ...` instance attribute) and
+    `__class_getitem__`.
 Oracle
   CPython: each class statement is exec'ed in dependency order (`__mro__`, TypeError "Cannot create a consistent
-  method resolution order", `getattr(cls, name)` for the inherited attributes); forward-only "pkg" cases are also
-  really imported and the imported classes' `__mro__` is what Griffe is compared with.
+  method resolution order", the first class `__dict__` along `__mro__` holding a name = the attribute CPython finds);
+  forward-only "pkg" cases are also really imported from the files Griffe loads and the imported classes' `__mro__`
+  is what Griffe is compared with.
 """
 
 from __future__ import annotations
@@ -35,21 +41,32 @@ LEVEL = "exploration"
 RULE = (
     "one-module hierarchies: exhaustive enumeration of all ordered base tuples (<=3 distinct bases among earlier classes) for exactly "
     "N classes (N=5 quick: 6560, N=6 thorough: 564160), consistent or not; cyclic graphs: all 4096 graphs of 3 classes with bases among "
-    "all 3; multi-module packages: Hypothesis-constructed (2-7 classes, 1-3 modules, 9 import forms, external bases, occasional back edges); "
-    "member placement (4 names x {absent,function,attribute,nested class} per class) derived from the seed. Every class of every hierarchy "
-    "is judged. non-trivial = some class has >=2 bases; distinct = distinct case model (bases, members, module layout, import forms)"
+    "all 3; multi-module packages: Hypothesis-constructed (2-7 classes, 1-3 modules, 11 import forms incl. 1-4 re-export hops, subscripted bases, "
+    "classes defined in classes and used as bases, external bases, occasional back edges); member placement (4 names x {absent, function, "
+    "attribute, member class, property, staticmethod, classmethod}, __init__ with/without instance attribute) derived from the seed. Every class of "
+    "every hierarchy is judged. non-trivial = some class has >=2 bases; distinct = distinct case model (bases, members, nesting, module layout, import forms)"
 )
 ASSUMPTIONS = [
-    "CPython 3.12 is the reference: class statements are exec'ed (type.__new__ computes __mro__ or raises TypeError), getattr(cls, name) is 'the attribute CPython finds'",
+    "CPython 3.12 is the reference: class statements are exec'ed (type.__new__ computes __mro__ or raises TypeError); 'the attribute CPython finds' for a name is "
+    "the entry of the first class __dict__ along __mro__ that has it (what type.__getattribute__ does for these plain members)",
     "cyclic graphs cannot be built in CPython at all: a class whose ancestor graph contains a cycle is expected to be 'uncomputable' (ValueError from mro()); "
     "classes of the same graph whose ancestors are acyclic are judged against CPython on that sub-hierarchy",
     "a class deriving from a class CPython rejects is itself in a hierarchy CPython rejects: mro() must raise ValueError",
     "'reported as uncomputable' = Class.mro() raises ValueError and inherited_members is empty (what the anchored code documents); no other exception, no recursion",
-    "external bases (builtins, undefined names, aliases into packages that are not loaded) are invisible to static analysis: the MRO is compared restricted to "
-    "loaded classes, and a class for which the external bases change CPython's verdict on the loaded classes (order or consistency, e.g. class C1(object, C0)) "
-    "is outside the checked domain (labelled, counted, not judged)",
-    "members are plain class-body definitions (def / assignment / nested class); no instance attributes, no decorators, no class-body imports",
-    "static analysis only (griffe.visit / griffe.load(allow_inspection=False)); wildcard import forms only with resolve_aliases=True (the loader expands them only then)",
+    "external bases (builtins, undefined names, aliases into packages that are not loaded, typing.Generic[T]) are invisible to static analysis (docs: 'only classes from "
+    "already loaded packages will be used'): the MRO is compared restricted to loaded classes, a class for which the external bases change CPython's verdict on the "
+    "loaded classes (order or consistency, e.g. class C1(object, C0)) is outside the checked domain (labelled, counted, not judged), and a name CPython finds first "
+    "in an external class's __dict__ (e.g. Exception.__init__) is not judged for that class",
+    "members are class-body definitions: def / assignment / class / @property / @staticmethod / @classmethod / __init__ / __class_getitem__; a property is an attribute in "
+    "Griffe's model; no class-body imports; an instance attribute never reuses a name the same class defines at class level",
+    "instance attributes (self.x = ... in __init__) are declared members of their class in Griffe's model; that they are also *inherited* contradicts the property text "
+    "(CPython's lookup through the MRO never finds them): known finding 'inherited-instance-attributes'; while it is listed, generated instance attributes only "
+    "occur in classes nobody derives from",
+    "classes defined in a class body are numbered before their host (the order in which CPython finishes the class statements); a host never derives from a class of "
+    "its own body and a nested class never from its host (no statement order makes that valid Python); the abstract oracle creates every class from a flat statement "
+    "and attaches nested classes to their host afterwards - the real import of the generated files (same text Griffe reads) must agree, else harness error",
+    "static analysis only (griffe.visit / griffe.load(allow_inspection=False)); wildcard import forms only with resolve_aliases=True (the loader expands them only then) "
+    "and never in packages with cyclic imports",
     "import forms only reach classes defined in the named module (re-export chains use renamed from-imports); module and member names never collide",
 ]
 EXHAUSTIVE = True
@@ -97,10 +114,13 @@ def _load_pkg(case, root: Path, files):
         try_relative_path=False,
         what="griffe.load of " + _show_files(files),
     )
+    host = H.hosts(case)
     out = []
     for i, m in enumerate(case["mods"]):
-        mod = pkg.members.get(f"m{m}")
-        out.append(mod.members.get(f"C{i}") if mod is not None else None)
+        obj = pkg.members.get(f"m{m}")
+        for part in ([f"C{i}"] if host[i] is None else [f"C{host[i]}", f"C{i}"]):
+            obj = obj.members.get(part) if obj is not None and not getattr(obj, "is_alias", False) else None
+        out.append(obj)
     return out
 
 
@@ -123,9 +143,10 @@ def _import_pkg(case, root: Path) -> list[list[str]]:
     importlib.invalidate_caches()
     try:
         out = []
+        host = H.hosts(case)
         for i, m in enumerate(case["mods"]):
             mod = importlib.import_module(f"{H.PKG}.m{m}")
-            cls = getattr(mod, f"C{i}")
+            cls = getattr(mod, f"C{i}") if host[i] is None else getattr(getattr(mod, f"C{host[i]}"), f"C{i}")
             out.append([f"{c.__module__}.{c.__qualname__}" for c in cls.__mro__[1:] if c.__module__.startswith(H.PKG + ".")])
         return out
     finally:
@@ -143,21 +164,27 @@ def _import_pkg(case, root: Path) -> list[list[str]]:
 
 # ----------------------------------------------------------------------------- judge
 def _shape(case, i: int) -> str:
-    """Short text of the hierarchy for messages."""
+    """Short text of the hierarchy for messages (Ck@Ch: class k is defined in the body of class h)."""
+    host = H.hosts(case)
     parts = []
-    for k, bs in enumerate(case["bases"]):
-        parts.append(f"C{k}({', '.join(H.direct_expr(b) for b in bs)})" if bs else f"C{k}")
+    for k in range(len(case["bases"])):
+        name = f"C{k}" if host[k] is None else f"C{k}@C{host[k]}"
+        exprs = H.flat_base_exprs(case, k)
+        parts.append(f"{name}({', '.join(exprs)})" if exprs else name)
     return "; ".join(parts) + f"  [class C{i}]"
+
+
+SLUG_IA = "inherited-instance-attributes"
 
 
 def judge_class(case, i: int, exp: dict, g, where: str) -> list[Fail]:
     fails: list[Fail] = []
     shape = _shape(case, i)
     path = H.class_path(case, i)
-    if g is None or not getattr(g, "is_class", False):
+    if g is None or not getattr(g, "is_class", False) or getattr(g, "is_alias", False):
         # loading the class is C01/C05 territory, but without it nothing can be judged
         return [Fail("mro", "class-not-loaded", f"{shape}: {path} is not a class member of the loaded tree ({g!r})\n{where}")]
-    own = {n for n, k in zip(H.NAMES, case["members"][i]) if k}
+    own = set(H.declared_names(case, i))
     if not own <= set(g.members):
         # extraction of plain class-body definitions is C01 territory, but without them nothing can be judged
         return [Fail("mro", "declared-member-not-loaded", f"{shape}: {path} declares {sorted(own)}, loaded members are {sorted(g.members)}\n{where}")]
@@ -212,42 +239,75 @@ def judge_class(case, i: int, exp: dict, g, where: str) -> list[Fail]:
 
     # ---- clause: inherited members are exactly what CPython finds through the MRO
     attrs = exp["attrs"]
-    want_inh = {n for n, (definer, _) in attrs.items() if definer != i}
-    if {n for n, (definer, _) in attrs.items() if definer == i} != own:
-        raise HarnessError(f"oracle: own names {own} vs CPython {attrs} for {shape}")
+    skip_names = set(exp["ext_names"])  # first found in a class that is not loaded: no expectation
+    ia = exp["ia"]  # a base's instance attribute precedes what CPython finds (Griffe lists it; CPython's lookup does not)
+    cpy_own = {n for n, (definer, _) in attrs.items() if definer == i}
+    if cpy_own != set(H.class_level_names(case, i)):
+        raise HarnessError(f"oracle: class-level names {H.class_level_names(case, i)} vs CPython {attrs} for {shape}")
+    want_inh = {n for n, (definer, _) in attrs.items() if definer != i and n not in own}
     inh = call("inherited", lambda: g.inherited_members, what=f"{path}.inherited_members")
-    if set(inh) != want_inh:
-        extra, missing = sorted(set(inh) - want_inh), sorted(want_inh - set(inh))
-        kind = "own-name-listed" if set(extra) & own else ("extra" if extra else "missing")
-        fails.append(Fail("inherited-set", kind, f"{shape}: CPython inherits {sorted(want_inh)}, inherited_members has {sorted(inh)} (own: {sorted(own)})\n{where}"))
     allm = call("inherited", lambda: g.all_members, what=f"{path}.all_members")
-    if set(allm) != want_inh | own:
-        fails.append(Fail("inherited-set", "all_members-keys", f"{shape}: all_members keys {sorted(allm)}, expected {sorted(want_inh | own)}\n{where}"))
-    for n in sorted(want_inh):
+    for n in sorted((set(inh) | want_inh | (set(allm) - own)) - skip_names):
+        detail = {"class": i, "name": n}
+        cpy = f"{H.class_path(case, attrs[n][0])}.{n}" if n in want_inh else None
+        if n in inh and n not in want_inh:
+            if n in own:
+                fails.append(Fail("inherited-set", "own-name-listed", f"{shape}: inherited_members lists {n!r}, which {path} declares itself\n{where}", detail))
+            elif n in ia:
+                fails.append(
+                    Fail(
+                        "inherited-set",
+                        "extra-instance-attribute",
+                        f"{shape}: CPython finds no attribute {n!r} through the MRO of C{i}; inherited_members lists it (instance attribute assigned in C{ia[n]}.__init__)\n{where}",
+                        detail,
+                    )
+                )
+            else:
+                fails.append(Fail("inherited-set", "extra", f"{shape}: CPython finds no attribute {n!r} through the MRO of C{i}; inherited_members lists it -> {inh[n].target_path}\n{where}", detail))
+            continue
+        if n in want_inh and n not in inh:
+            fails.append(Fail("inherited-set", "missing", f"{shape}: CPython finds {cpy} for {n!r}; inherited_members of {path} lacks it (has {sorted(inh)})\n{where}", detail))
+            continue
+        if n not in want_inh:
+            # in all_members but neither declared nor inherited
+            fails.append(Fail("inherited-set", "phantom", f"{shape}: CPython finds no attribute {n!r}, all_members has it\n{where}", detail))
+            continue
+        if n not in allm:
+            fails.append(Fail("inherited-set", "all_members-lacks", f"{shape}: inherited {n!r} is missing from all_members\n{where}", detail))
         definer, kcode = attrs[n]
         try:
             a = call("inherited", g.__getitem__, n, what=f"{path}[{n!r}]", allowed=(KeyError,))
         except KeyError:
-            fails.append(Fail("inherited-lookup", "KeyError", f"{shape}: {path}[{n!r}] raised KeyError, CPython finds C{definer}.{n}\n{where}"))
+            fails.append(Fail("inherited-lookup", "KeyError", f"{shape}: {path}[{n!r}] raised KeyError, CPython finds {cpy}\n{where}", detail))
             continue
-        want_target = f"{H.class_path(case, definer)}.{n}"
+        is_alias = getattr(a, "is_alias", False)
         # nearest definition wins
-        tgt = call("inherited", lambda a=a: a.final_target.path, what=f"{path}[{n!r}].final_target.path") if getattr(a, "is_alias", False) else a.path
-        if tgt != want_target:
-            fails.append(Fail("nearest-wins", "wrong-definer", f"{shape}: CPython finds {want_target} for {n!r}, Griffe's inherited member targets {tgt}\n{where}"))
+        tgt = call("inherited", lambda a=a: a.final_target.path, what=f"{path}[{n!r}].final_target.path") if is_alias else a.path
+        if tgt != cpy:
+            if n in ia and tgt == f"{H.class_path(case, ia[n])}.{n}":
+                fails.append(
+                    Fail(
+                        "nearest-wins",
+                        "instance-attribute-shadows-class-attribute",
+                        f"{shape}: CPython finds {cpy} for {n!r}; Griffe's inherited member targets {tgt}, an instance attribute assigned in C{ia[n]}.__init__\n{where}",
+                        detail,
+                    )
+                )
+                continue
+            fails.append(Fail("nearest-wins", "wrong-definer", f"{shape}: CPython finds {cpy} for {n!r}, Griffe's inherited member targets {tgt}\n{where}", detail))
         # presented as inherited alias under the subclass's own path
-        if not getattr(a, "is_alias", False):
-            fails.append(Fail("inherited-alias", "not-an-alias", f"{shape}: {path}[{n!r}] is {a!r}, not an alias\n{where}"))
+        if not is_alias:
+            fails.append(Fail("inherited-alias", "not-an-alias", f"{shape}: {path}[{n!r}] is {a!r}, not an alias\n{where}", detail))
             continue
         if a.inherited is not True:
-            fails.append(Fail("inherited-alias", "flag", f"{shape}: {path}[{n!r}].inherited is {a.inherited!r}\n{where}"))
+            fails.append(Fail("inherited-alias", "flag", f"{shape}: {path}[{n!r}].inherited is {a.inherited!r}\n{where}", detail))
         if a.path != f"{path}.{n}":
-            fails.append(Fail("inherited-alias", "path", f"{shape}: {path}[{n!r}].path is {a.path!r}, expected {path}.{n}\n{where}"))
+            fails.append(Fail("inherited-alias", "path", f"{shape}: {path}[{n!r}].path is {a.path!r}, expected {path}.{n}\n{where}", detail))
         gk = call("inherited", lambda a=a: a.kind.value, what=f"{path}[{n!r}].kind")
         if gk != H.KIND_NAME[kcode]:
-            fails.append(Fail("nearest-wins", "kind", f"{shape}: {path}[{n!r}] has kind {gk}, CPython finds a {H.KIND_NAME[kcode]} (C{definer}.{n})\n{where}"))
-        if inh.get(n) is not None and (inh[n].target_path != want_target and inh[n].final_target.path != want_target):
-            fails.append(Fail("nearest-wins", "inherited_members-entry", f"{shape}: inherited_members[{n!r}] targets {inh[n].target_path}, expected {want_target}\n{where}"))
+            fails.append(Fail("nearest-wins", "kind", f"{shape}: {path}[{n!r}] has kind {gk}, the nearest definition {cpy} is a {H.KIND_NAME[kcode]}\n{where}", detail))
+        if inh[n].target_path != cpy and call("inherited", lambda n=n: inh[n].final_target.path, what=f"inherited_members[{n!r}].final_target") != cpy:
+            fails.append(Fail("nearest-wins", "inherited_members-entry", f"{shape}: inherited_members[{n!r}] targets {inh[n].target_path}, expected {cpy}\n{where}", detail))
     # ---- clause: never shadow a member the class declares itself
     for n in sorted(own):
         m = g.members[n]
@@ -258,11 +318,21 @@ def judge_class(case, i: int, exp: dict, g, where: str) -> list[Fail]:
             fails.append(Fail("own-not-shadowed", "getitem", f"{shape}: {path}[{n!r}] is {got_item!r}, not the declared member {m!r}\n{where}"))
         if getattr(m, "inherited", False):
             fails.append(Fail("own-not-shadowed", "flag", f"{shape}: declared member {n!r} is flagged inherited\n{where}"))
-    # names CPython does not find must not exist
-    for n in H.NAMES:
-        if n not in attrs and n in allm:
-            fails.append(Fail("inherited-set", "phantom", f"{shape}: CPython finds no attribute {n!r}, all_members has it\n{where}"))
     return fails
+
+
+def _known_inherited_instance_attribute(case, fail: Fail) -> bool:
+    """Known finding: the only thing wrong is that an instance attribute assigned in a base class's `__init__` is listed
+    as inherited member (CPython's lookup through the MRO finds nothing) or wins over the class-level definition CPython
+    finds farther along the MRO. Verified on the model: the named class really has such an instance attribute first."""
+    if fail.bucket not in ("inherited-set/extra-instance-attribute", "nearest-wins/instance-attribute-shadows-class-attribute"):
+        return False
+    d = fail.detail or {}
+    exp = H.oracle(case)[d["class"]]
+    return exp["status"] == "ok" and d["name"] in exp["ia"]
+
+
+KNOWN = {SLUG_IA: _known_inherited_instance_attribute}
 
 
 # ----------------------------------------------------------------------------- entry points
@@ -343,16 +413,22 @@ def _enumerate(ctx, kind: str, space, placements: int) -> None:
     from vp.common.harness import run_check
 
     n_checked = 0
+    steer = SLUG_IA in ctx.known  # known finding: no instance attribute in a class somebody derives from
     for index in range(ctx.shard, space.size, ctx.nshards):
         n_checked += 1
         if n_checked % 64 == 0 and ctx.out_of_budget():
             break
         bases = space.decode(index)
         for p in range(placements):
-            # 3 bits per (class, name): two 64-bit seed-derived words cover 6 classes x 4 names
+            # 4 bits per (class, name): two 64-bit seed-derived words cover 6 classes x 4 names
             tag = f"c07:{kind}:{space.n}:{index}:{p}"
             bits = derive_seed(ctx.base_seed, 0, tag) | (derive_seed(ctx.base_seed, 1, tag) << 64)
-            case = {"kind": kind, "bases": bases, "members": H.members_from_bits(bits, space.n)}
+            members = H.members_from_bits(bits, space.n)
+            ibits = derive_seed(ctx.base_seed, 2, tag)
+            init = H.init_from_bits(ibits, members, bases, leaf_only=steer)
+            if steer and init != H.init_from_bits(ibits, members, bases, leaf_only=False):
+                ctx.excluded(SLUG_IA)
+            case = {"kind": kind, "bases": bases, "members": members, "init": init}
             fails = run_check(check_case, case)
             nontrivial, classes = describe(case, _expect_of(case))
             sample = case if (index * placements + p) % 1013 == 5 else None
@@ -364,7 +440,7 @@ def _enumerate(ctx, kind: str, space, placements: int) -> None:
 def strategy(ctx):
     from vp.gen import c07_strategy
 
-    return c07_strategy.pkg_cases(), "pkg"
+    return c07_strategy.pkg_cases(leaf_only_instance_attrs=SLUG_IA in ctx.known), "pkg"
 
 
 def run_shard(ctx) -> None:
@@ -376,12 +452,17 @@ def run_shard(ctx) -> None:
         ctx.res.extra["cyclic_graphs"] = cyclic.size
         ctx.res.extra["member_placements_per_graph"] = ctx.scale(2, 1)
     # the exhaustive parts first: a wall-clock budget that runs out (busy machine) then only cuts the sampled search
+    ctx.res.extra["enum_complete"] = False
     _enumerate(ctx, "cyc", cyclic, 2)
     _enumerate(ctx, "one", acyclic, ctx.scale(2, 1))
+    ctx.res.extra["enum_complete"] = not ctx.res.budget_exhausted
     strat, salt = strategy(ctx)
+    steer = SLUG_IA in ctx.known
 
     def desc(case):
         nontrivial, classes = describe(case, _expect_of(case))
+        if steer and case.get("ia_steered"):
+            ctx.excluded(SLUG_IA)
         return (case if nontrivial else None), classes, case
 
     ctx.run_hypothesis(strat, check_case, ctx.scale(1000, 12000), describe=desc, salt=salt)
